@@ -148,7 +148,7 @@ class CIMNamespaceProvider(InstanceWriteProvider):
 
         # Validate that required properties are specified in the new instance
         for pn in [name_pname, ccn_pname]:
-            if pn not in new_instance:
+            if pn not in new_instance or new_instance[pn] is None:
                 raise CIMError(
                     CIM_ERR_INVALID_PARAMETER,
                     _format(
